@@ -323,6 +323,25 @@ func (g *G) Vector(d int) string {
 		}
 		return g.Selector()
 	}
+	if p.Fallback && g.R.Intn(5) == 0 {
+		// constructs the engine does not evaluate itself, around an ordinary operand: whatever
+		// evaluates the query (this engine, a remote one) hands it to the Prometheus engine
+		inner := g.Vector(d - 1)
+		switch g.R.Intn(6) {
+		case 0:
+			return fmt.Sprintf("round(%s)", inner)
+		case 1:
+			return fmt.Sprintf("round(%s, 0.5)", inner)
+		case 2:
+			return fmt.Sprintf("sort_desc(%s)", inner)
+		case 3:
+			return fmt.Sprintf("label_replace(%s, \"x\", \"$1\", \"a\", \"(.*)\")", inner)
+		case 4:
+			return fmt.Sprintf("count_values(\"v\", %s)", inner)
+		case 5:
+			return fmt.Sprintf("max_over_time((%s)[1m:15s])", inner)
+		}
+	}
 	switch g.pick(p.WSel, p.WRangeFn, p.WInstFn, p.WAggr, p.WKAggr, p.WBinVV, p.WBinVS, p.WUnary, p.WParen, p.WVecOf, p.WClamp, p.WHist, p.WTs, p.WTwice) {
 	case 0:
 		return g.Selector()
